@@ -153,14 +153,14 @@ Definition eq_ (w N : Z) (fuel : nat) (self : list Z) (other : list Z) : res (bo
 Definition cmp (w N : Z) (fuel : nat) (self : list Z) (other : list Z) : res (comparison) :=
   let i := N in
   t4' <- while_loop (R := comparison) fuel
-    (fun i => (i >? 0))
+    (fun i => (0 <? i))
     (fun i =>
       i <- usub i 1 ;;
       t2' <- arr_get self i ;;
       let a := t2' in
       t3' <- arr_get other i ;;
       let b := t3' in
-      if (a >? b) then (
+      if (b <? a) then (
         Done (Return Gt)
       ) else (
         if (a <? b) then (
@@ -195,7 +195,9 @@ Definition long_mul (w N : Z) (fuel : nat) (self : list Z) (rhs : list Z) : res 
             t1' <- arr_get self i ;;
             t2' <- arr_get rhs j ;;
             t3' <- arr_get out index ;;
-            let '(prod, c) := (DigitGen.carrying_mul w t1' t2' carry t3') in
+            let pr' := (DigitGen.carrying_mul w t1' t2' carry t3') in
+            let prod := (fst pr') in
+            let c := (snd pr') in
             out <- arr_set out index prod ;;
             let carry := c in
             let j := (j + 1) in
@@ -272,7 +274,7 @@ Definition leading_zeros (w N : Z) (fuel : nat) (self : list Z) : res (Z) :=
   let zeros := 0 in
   let i := N in
   t3' <- while_loop (R := Z) fuel
-    (fun '(zeros, i) => (i >? 0))
+    (fun '(zeros, i) => (0 <? i))
     (fun '(zeros, i) =>
       i <- usub i 1 ;;
       t2' <- arr_get self i ;;
@@ -318,7 +320,7 @@ Definition leading_ones (w N : Z) (fuel : nat) (self : list Z) : res (Z) :=
   let ones := 0 in
   let i := N in
   t3' <- while_loop (R := Z) fuel
-    (fun '(ones, i) => (i >? 0))
+    (fun '(ones, i) => (0 <? i))
     (fun '(ones, i) =>
       i <- usub i 1 ;;
       t2' <- arr_get self i ;;
@@ -368,7 +370,7 @@ Definition is_power_of_two (w N : Z) (fuel : nat) (self : list Z) : res (bool) :
     (fun '(ones, i) =>
       t1' <- arr_get self i ;;
       let ones := (ones + (u_count_ones t1')) in
-      if (ones >? 1) then (
+      if (1 <? ones) then (
         Done (Return false)
       ) else (
         let i := (i + 1) in
@@ -688,11 +690,13 @@ Definition div_rem_digit (w N : Z) (fuel : nat) (self : list Z) (rhs : Z) : res 
   let rem := 0 in
   let i := N in
   t3' <- while_loop (R := (list Z * Z)) fuel
-    (fun '(out, rem, i) => (i >? 0))
+    (fun '(out, rem, i) => (0 <? i))
     (fun '(out, rem, i) =>
       i <- usub i 1 ;;
       t2' <- arr_get self i ;;
-      let '(q, r) := (DigitGen.div_rem_wide w t2' rem rhs) in
+      let pr' := (DigitGen.div_rem_wide w t2' rem rhs) in
+      let q := (fst pr') in
+      let r := (snd pr') in
       let rem := r in
       out <- arr_set out i q ;;
       Done (Continue (out, rem, i)))
@@ -757,7 +761,9 @@ Definition I_overflowing_add (w N : Z) (fuel : nat) (self : list Z) (rhs : list 
       if (i <? t1') then (
         t2' <- arr_get self_digits i ;;
         t3' <- arr_get rhs_digits i ;;
-        let '(sum, c) := (DigitGen.carrying_add w t2' t3' carry) in
+        let pr' := (DigitGen.carrying_add w t2' t3' carry) in
+        let sum := (fst pr') in
+        let c := (snd pr') in
         out <- arr_set out i sum ;;
         let carry := c in
         let i := (i + 1) in
@@ -772,7 +778,9 @@ Definition I_overflowing_add (w N : Z) (fuel : nat) (self : list Z) (rhs : list 
       t7' <- arr_get self_digits t6' ;;
       t8' <- usub N 1 ;;
       t9' <- arr_get rhs_digits t8' ;;
-      let '(sum, carry) := (DigitGen.carrying_add_signed w (sd w t7') (sd w t9') carry) in
+      let pr' := (DigitGen.carrying_add_signed w (sd w t7') (sd w t9') carry) in
+      let sum := (fst pr') in
+      let carry := (snd pr') in
       t10' <- usub N 1 ;;
       out <- arr_set out t10' (ud w sum) ;;
       Done (out, carry)
@@ -793,7 +801,9 @@ Definition I_overflowing_sub (w N : Z) (fuel : nat) (self : list Z) (rhs : list 
       if (i <? t1') then (
         t2' <- arr_get self_digits i ;;
         t3' <- arr_get rhs_digits i ;;
-        let '(sub, b) := (DigitGen.borrowing_sub w t2' t3' borrow) in
+        let pr' := (DigitGen.borrowing_sub w t2' t3' borrow) in
+        let sub := (fst pr') in
+        let b := (snd pr') in
         out <- arr_set out i sub ;;
         let borrow := b in
         let i := (i + 1) in
@@ -808,7 +818,9 @@ Definition I_overflowing_sub (w N : Z) (fuel : nat) (self : list Z) (rhs : list 
       t7' <- arr_get self_digits t6' ;;
       t8' <- usub N 1 ;;
       t9' <- arr_get rhs_digits t8' ;;
-      let '(sub, borrow) := (DigitGen.borrowing_sub_signed w (sd w t7') (sd w t9') borrow) in
+      let pr' := (DigitGen.borrowing_sub_signed w (sd w t7') (sd w t9') borrow) in
+      let sub := (fst pr') in
+      let borrow := (snd pr') in
       t10' <- usub N 1 ;;
       out <- arr_set out t10' (ud w sub) ;;
       Done (out, borrow)
@@ -824,7 +836,9 @@ Definition I_overflowing_neg (w N : Z) (fuel : nat) (self : list Z) : res (list 
       t1' <- usub N 1 ;;
       if (i <? t1') then (
         t2' <- arr_get self i ;;
-        let '(s, o) := (u_ovf_add w (u_not w t2') 1) in
+        let pr' := (u_ovf_add w (u_not w t2') 1) in
+        let s := (fst pr') in
+        let o := (snd pr') in
         self <- arr_set self i s ;;
         if (negb o) then (
           let i := (i + 1) in
@@ -852,7 +866,9 @@ Definition I_overflowing_neg (w N : Z) (fuel : nat) (self : list Z) : res (list 
   match t6' with
   | Exited (self, i) =>
       t8' <- arr_get self i ;;
-      let '(s, o) := (s_ovf_add w (sd w (u_not w t8')) 1) in
+      let pr' := (s_ovf_add w (sd w (u_not w t8')) 1) in
+      let s := (fst pr') in
+      let o := (snd pr') in
       self <- arr_set self i (ud w s) ;;
       Done (self, o)
   | Returned t7' => Done t7'
@@ -868,19 +884,25 @@ Definition overflowing_pow (w N : Z) (fuel : nat) (self : list Z) (pow : Z) : re
     t2' <- from_digit w N fuel 1 ;;
     let y := t2' in
     t3' <- while_loop (R := (list Z * bool)) fuel
-      (fun '(self, y, overflow, pow) => (pow >? 1))
+      (fun '(self, y, overflow, pow) => (1 <? pow))
       (fun '(self, y, overflow, pow) =>
         if ((ix_and pow 1) =? 1) then (
-          let '(prod, o) := (Mul.U_overflowing_mul w y self) in
+          let pr' := (Mul.U_overflowing_mul w y self) in
+          let prod := (fst pr') in
+          let o := (snd pr') in
           let overflow := (orb overflow o) in
           let y := prod in
-          let '(prod, o) := (Mul.U_overflowing_mul w self self) in
+          let pr' := (Mul.U_overflowing_mul w self self) in
+          let prod := (fst pr') in
+          let o := (snd pr') in
           let overflow := (orb overflow o) in
           let self := prod in
           let pow := (ix_shr pow 1) in
           Done (Continue (self, y, overflow, pow))
         ) else (
-          let '(prod, o) := (Mul.U_overflowing_mul w self self) in
+          let pr' := (Mul.U_overflowing_mul w self self) in
+          let prod := (fst pr') in
+          let o := (snd pr') in
           let overflow := (orb overflow o) in
           let self := prod in
           let pow := (ix_shr pow 1) in
@@ -889,7 +911,9 @@ Definition overflowing_pow (w N : Z) (fuel : nat) (self : list Z) (pow : Z) : re
       (self, y, overflow, pow) ;;
     match t3' with
     | Exited (self, y, overflow, pow) =>
-        let '(prod, o) := (Mul.U_overflowing_mul w self y) in
+        let pr' := (Mul.U_overflowing_mul w self y) in
+        let prod := (fst pr') in
+        let o := (snd pr') in
         Done (prod, (orb o overflow))
     | Returned t4' => Done t4'
     end
@@ -904,7 +928,7 @@ Definition checked_pow (w N : Z) (fuel : nat) (self : list Z) (pow : Z) : res (o
     t2' <- from_digit w N fuel 1 ;;
     let y := t2' in
     t3' <- while_loop (R := (option (list Z))) fuel
-      (fun '(self, y, pow) => (pow >? 1))
+      (fun '(self, y, pow) => (1 <? pow))
       (fun '(self, y, pow) =>
         if ((ix_and pow 1) =? 1) then (
           match (Mul.U_checked_mul w self y) with
@@ -954,7 +978,7 @@ Definition wrapping_pow (w N : Z) (fuel : nat) (self : list Z) (pow : Z) : res (
     t2' <- from_digit w N fuel 1 ;;
     let y := t2' in
     t3' <- while_loop (R := list Z) fuel
-      (fun '(self, y, pow) => (pow >? 1))
+      (fun '(self, y, pow) => (1 <? pow))
       (fun '(self, y, pow) =>
         if ((ix_and pow 1) =? 1) then (
           let y := (Mul.U_wrapping_mul w self y) in
@@ -996,7 +1020,9 @@ Fixpoint iilog (dbg : bool) (w N : Z) (fuel : nat) (m : Z) (b : list Z) (k : lis
     t1' <- eshl m 1 ;;
     t2' <- of_outcome (Mul.U_mul dbg w b b) ;;
     t3' <- iilog dbg w N fuel' t1' t2' (fst (Div.U_div_rem_unchecked w k b)) ;;
-    let '(new, q) := t3' in
+    let pr' := t3' in
+    let new := (fst pr') in
+    let q := (snd pr') in
     if (cmp_gt (ucmp b q)) then (
       Done (new, q)
     ) else (
